@@ -18,3 +18,8 @@ def run(ctx):
         c08.rule_write_budget(ctx, cfg, r8)
         r9 = ctx.rule("R05.6" + sfx, "bit-buffer discipline: no bit beyond num_bits decides the slow Huffman walk", floor=2, config=cfg)
         ic.rule_bit_reads(ctx, cfg, r9)
+        r2 = ctx.rule("R05.2" + sfx, "panic-site census: every index into a fixed-size array on the decode path is proved in range or is in the reviewed residue", floor=3, config=cfg)
+        ic.rule_panic_census(ctx, cfg, r2)
+    # the streaming wrapper: a failed stream stays failed (sticky last_status), also on the first-call Finish path
+    from rules import c13
+    c13.run_cfg(ctx, "H1", only=("R13.2", "R13.4", "R13.8"), prefix="R05.9/")
